@@ -90,6 +90,11 @@ func (idx *ServiceIndex) OnUpdate(update api.Update) (_ bool) {
 
 func (idx *ServiceIndex) UpdateEndpointSlice(es *discovery.EndpointSlice) {
 	svc := serviceName(es)
+	if cached, ok := idx.endpointSlices[fmt.Sprintf("%s/%s", es.Namespace, es.Name)]; ok && serviceName(cached) != svc {
+		// The slice has moved to a different service (its service-name label changed).  Its old
+		// contributions belong to the old service's IP sets, so treat this as a delete and re-add.
+		idx.DeleteEndpointSlice(model.ResourceKey{Kind: model.KindKubernetesEndpointSlice, Namespace: es.Namespace, Name: es.Name})
+	}
 	if _, ok := idx.endpointSlicesByService[svc]; !ok {
 		idx.endpointSlicesByService[svc] = map[string]*discovery.EndpointSlice{}
 	}
